@@ -14,6 +14,7 @@ import Golib.Proof.C20Count
 import Golib.Proof.C20Numeral
 import Golib.Proof.C20Value
 import Golib.Proof.C20StrFast
+import Golib.Proof.C20Term
 
 namespace Golib.C20
 open Golib.Gen.C20
@@ -214,6 +215,45 @@ theorem c20_str_total (g : StrGen) (n : Nat) (ws : List Nat) (hne : ws ≠ [])
   · exact absurd h hne
   · omega
   · exact ⟨out, rest, hd⟩
+
+/-- Termination, as a fuel bound in WORDS read from the random source, for every generator
+state, every `n ≥ 0` and every word stream: if the first `k ≥ 1` words offer at least `n`
+acceptable indices, `Generate(n)` returns exactly `n` runes having read at most `k` words;
+in particular if every word offers at least `a` acceptable indices, `⌈n/a⌉` words (at least
+one) suffice.  (`NewStrGenerator` guarantees that at least half of the `2^bits` index values
+are acceptable, `c20_strgen_fields`; how many a WORD offers is up to the source.) -/
+theorem c20_str_fuel_bound (g : StrGen) (n k : Nat) (ws : List Nat) (hk : 1 ≤ k) (hne : ws ≠ []) :
+    (n ≤ offered g (ws.take k) →
+      ∃ out rest, generate g n ws = .done out rest ∧ out.length = n ∧ ws.length - k ≤ rest.length) ∧
+    (∀ a, (∀ w ∈ ws, a ≤ accepted g w g.charIdxMax) → k ≤ ws.length → n ≤ a * k →
+      ∃ out rest, generate g n ws = .done out rest ∧ out.length = n ∧ ws.length - k ≤ rest.length) :=
+  ⟨fun h => generate_within g n k ws hk hne h,
+   fun a hall hkl hn => generate_within g n k ws hk hne
+     (Nat.le_trans hn (offered_ge g a ws k hkl hall))⟩
+
+/-- ... and the converse, which is a NON-TERMINATION witness for an accepted input: for every
+non-empty character set, a `rand.Source` whose `Int63()` keeps returning `2^63 − 1` (all
+index fields equal to the mask, which is never a valid index because `len < 2^bits`) makes
+`Generate(n)`, `n ≥ 1`, read words forever — no number `k` of such words lets it return.
+The property's "returns exactly n runes" presupposes a source that offers acceptable
+indices infinitely often; with the package's own sources this has probability 1, it is not
+a theorem about arbitrary `rand.Source` values (recorded in `Findings/C20Str.lean`). -/
+theorem c20_str_never_returns (cs : List Nat) (hne : Utf8.runes cs ≠ [])
+    (hlt : (Utf8.runes cs).length < 2 ^ 63) (n k : Nat) (hn : 1 ≤ n) :
+    ∃ g, newStrGen cs = some g ∧ generate g n (List.replicate k (2 ^ 63 - 1)) = .exhausted := by
+  obtain ⟨g, hg, _, _, hmask, _, hlen, hmax, _⟩ := c20_strgen_fields cs hne hlt
+  refine ⟨g, hg, generate_never g n _ hn ?_⟩
+  intro w hw
+  rw [List.eq_of_mem_replicate hw]
+  apply accepted_ones g hmask hlen
+  rw [hmax]
+  exact Nat.mul_div_le 63 _
+
+/-- Non-vacuity of the bound: the set "abc" (2 index bits, 31 per word); words `0x1B`
+(fields 3, 2, 1, 0, 0 …) offer 30 acceptable indices each: 31 runes need two words. -/
+example : (newStrGen [97, 98, 99]).map (fun g => (accepted g 27 g.charIdxMax,
+      match generate g 31 [27, 27, 27] with | .done out rest => (out.length, rest.length) | _ => (0, 0)))
+    = some (30, (31, 1)) := by decide +kernel
 
 /-- `Generate(0)` returns the empty string; the loop initialiser still reads one random
 word (and only one). -/
